@@ -104,7 +104,8 @@ template <typename T> static void real_run(int family, long long N, unsigned lon
     seqgen<T> gen(family, N, seed);
     std::vector<long long> vals((std::size_t) N);
     // distribution 0 is two-dimensional (2 x 2 bins), distribution 1 has two bins: call i goes to distribution i % 2, bin (i / 2) % (number of bins)
-    __int128 exact = 0, abssum = 0, bexact[2][4] = {{0, 0, 0, 0}, {0, 0, 0, 0}}, babs[2][4] = {{0, 0, 0, 0}, {0, 0, 0, 0}};
+    __int128 exact = 0, abssum = 0, bexact[3][4] = {{0, 0, 0, 0}, {0, 0, 0, 0}, {0, 0, 0, 0}}, babs[3][4] = {{0, 0, 0, 0}, {0, 0, 0, 0}, {0, 0, 0, 0}};
+    // distribution 2 (two bins) is filled twice in every call, each time with the value: its bin (i % 2) holds twice the sum of those values
     for (long long i = 0; i != N; ++i)
     {
         long long v = gen.at(i);
@@ -112,6 +113,7 @@ template <typename T> static void real_run(int family, long long N, unsigned lon
         exact += v; abssum += v < 0 ? -v : v;
         int d = (int) (i % 2), b = (int) ((i / 2) % (d == 0 ? 4 : 2));
         bexact[d][b] += v; babs[d][b] += v < 0 ? -v : v;
+        bexact[2][i % 2] += 2 * v; babs[2][i % 2] += 2 * (v < 0 ? -v : v);
     }
     long long idx = 0;
     auto f = [&](hep::mc_point<T> const&, hep::projector<T>& pr) {
@@ -119,13 +121,15 @@ template <typename T> static void real_run(int family, long long N, unsigned lon
         T v = std::ldexp((T) vals[(std::size_t) i], -e);
         if (i % 2 == 0) { long long b = (i / 2) % 4; pr.add(0, T(0.25) + T(0.5) * T(b % 2), T(0.25) + T(0.5) * T(b / 2), v); }
         else pr.add(1, T(0.25) + T(0.5) * T((i / 2) % 2), v);
+        pr.add(2, T(0.25) + T(0.5) * T(i % 2), v);
+        pr.add(2, T(0.25) + T(0.5) * T(i % 2), v);
         return v;
     };
-    auto r = hep::plain(hep::make_integrand<T>(f, 1, hep::distribution_parameters<T>(2, 2, T(), T(1), T(), T(1), "a"), hep::make_dist_params<T>(2, T(), T(1), "b")),
+    auto r = hep::plain(hep::make_integrand<T>(f, 1, hep::distribution_parameters<T>(2, 2, T(), T(1), T(), T(1), "a"), hep::make_dist_params<T>(2, T(), T(1), "b"), hep::make_dist_params<T>(2, T(), T(1), "c")),
         std::vector<std::size_t>{(std::size_t) N}, hep::make_plain_chkpt<T>(), hep::callback<hep::default_plain_chkpt<T>>(hep::callback_mode::silent));
     auto const& res = r.results()[0];
     std::vector<long long> bins;
-    for (int d = 0; d != 2; ++d)
+    for (int d = 0; d != 3; ++d)
         for (int b = 0; b != (d == 0 ? 4 : 2); ++b)
         {
             // the bin stores sum / bin size (0.25 resp. 0.5): multiply back (exact)
